@@ -94,14 +94,14 @@ theorem typeCheck_iff : (e : Ty) → ∀ (a : Bool) (g : Ty), typeCheck a g e = 
             by_cases hl : ep.length = gp.length
             · have : (ep.length != gp.length) = false := by simpa using hl
               simp only [this, Bool.false_eq_true, ↓reduceIte] at h
-              exact .fn ((ihr true gr).mp hr) hl ((ihp gp).mp h)
+              exact .fn ((ihr true gr).mp hr) hl ((ihp gp hl).mp h)
             · have : (ep.length != gp.length) = true := by simpa using hl
               simp [this] at h
       · intro h
         cases h with
         | fn hr hl hp =>
           have : (ep.length != gp.length) = false := by simpa using hl
-          simp [(ihr true gr).mpr hr, this, (ihp gp).mpr hp]
+          simp [(ihr true gr).mpr hr, this, (ihp gp hl).mpr hp]
         | atom hh => simp [Ty.isAtom] at hh
     all_goals tc_cells
   | .fnvar ep erest er, a, g => by
@@ -159,27 +159,36 @@ theorem tcFields_iff : (ef : List (String × Ty)) → ∀ (a : Bool) (gf : List 
     · intro h
       cases h with
       | cons hl hc hr => simp [hl, (ih a _).mpr hc, (ihr a gf).mpr hr]
-theorem tcParams_iff : (ep : List (String × Ty)) → ∀ (gp : List (String × Ty)),
-    tcParams true gp ep = none ↔ ParamsCompatible gp ep
-  | [], gp => by simp [tcParams]; exact .nil
-  | (n, e) :: rest, gp => by
+theorem tcParams_iff : (ep : List (String × Ty)) → ∀ (gp : List (String × Ty)), ep.length = gp.length →
+    (tcParams true gp ep = none ↔ ParamsCompatible gp ep)
+  | [], gp, hl => by
+    cases gp with
+    | nil => simp [tcParams]; exact .nil
+    | cons _ _ => simp at hl
+  | (n, e) :: rest, gp, hl => by
     have ih := typeCheck_iff e
     have ihr := tcParams_iff rest
-    simp only [tcParams]
-    constructor
-    · intro h
-      cases hl : lookupTy n gp with
-      | none => simp [hl] at h
-      | some g =>
-        simp only [hl] at h
-        cases htc : typeCheck true g e with
-        | some m => simp [htc] at h
-        | none =>
-          simp only [htc] at h
-          exact .cons hl ((ih true g).mp htc) ((ihr gp).mp h)
-    · intro h
-      cases h with
-      | cons hl hc hr => simp [hl, (ih true _).mpr hc, (ihr gp).mpr hr]
+    cases gp with
+    | nil => simp at hl
+    | cons p gs =>
+      obtain ⟨gn, g⟩ := p
+      have hl' : rest.length = gs.length := by simpa using hl
+      simp only [tcParams]
+      constructor
+      · intro h
+        by_cases hn : gn = n
+        · subst hn
+          simp only [bne_self_eq_false, Bool.false_eq_true, ↓reduceIte] at h
+          cases htc : typeCheck true g e with
+          | some m => simp [htc] at h
+          | none =>
+            simp only [htc] at h
+            exact .cons ((ih true g).mp htc) ((ihr gs hl').mp h)
+        · have : (gn != n) = true := by simpa using hn
+          simp [this] at h
+      · intro h
+        cases h with
+        | cons hc hr => simp [(ih true _).mpr hc, (ihr gs hl').mpr hr]
 theorem tcTys_iff : (es : List Ty) → ∀ (gs : List Ty), tcTys true gs es = none ↔ TysCompatible gs es
   | [], gs => by cases gs <;> simp [tcTys] <;> exact .nilR
   | e :: es, gs => by
